@@ -197,6 +197,8 @@ pub const KEY_EXPRS: &[&str] = &[
     "|__placeholder| 1", "__placeholder::K", "S { __placeholder: 1 }", "x.__placeholder",
     "__placeholder!()", "match 1 { __placeholder => 2 }", "{ let __placeholder = 1; $ }",
     "x.__placeholder + $", "(__placeholder, $)", "r#__placeholder", "for __placeholder in 0..1 {}",
+    "Some(1).map(|$| 0)", "f(1).$", "f(1).$()", "(1).$", "{ g(1); let $ = 1; 0 }", "[1][0].$", "m!(1).$", "(a, b).0.$", "f(1)(|$| 1)",
+    "{ f(1) }; $", "f((1), $)", "f({ 1 }, |$| 2)", "x[f(1)].$ = 2", "S { a: (1), $: 2 }", "match (1) { $ => 2 }", "g::<{ 1 }>($)", "(1, 2).$", "[(1)].iter().map(|$| 1)",
     "1", "\"s\"", "()", "x", "self", "Self::K", "this", "other", "state", "_self_0", "|a, b| a == b",
     "f", "f64::total_cmp", "|a, h| a.hash(h)", "|a, b| a.partial_cmp(b)", "|a, b| a.cmp(b)",
 ];
@@ -242,6 +244,7 @@ pub const TYPES: &[&str] = &[
     // newer or unstable syntax that syn keeps as verbatim / special nodes
     "impl Tr + use<>", "pattern_type!(u32 is 1..)",
     "Box<dyn Tr<A: Copy>>", "impl Tr<A = impl Copy>", "X<{ const { 1 } }>", "&'static mut dyn for<'x> Tr<'x, Out = &'x T>",
+    "[u8; 0]", "[u8; 18446744073709551615]", "[u8; 340282366920938463463374607431768211455]", "X<9223372036854775807>", "X<-9223372036854775808>",
     "X<N>", "X<-1>", "X<{ -1 }>", "X<'static, T>", "for<'a> fn(&'a T) -> &'a T", "dyn for<'a> Tr<'a, T>", "T<u8>", "N", "Self::Assoc", "Self::T",
     "Tr<T>", "m![T; N]", "m! { T }", "::X<T>", "X::<T>", "&'a X<'a, &'a T>", "[[T; N]; N]", "(T,)", "((T,), (U,))",
     "extern \"C\" fn(u8, ...) -> u8", "unsafe extern \"C-unwind\" fn()", "<T>::Assoc", "<<T as A>::B as C>::D", "T::A::B", "crate::X", "super::X<T>", "self::X",
